@@ -22,7 +22,7 @@ RULE = (
     "not judged. Any exception or a call longer than 120 s on a judged case is a violation. Non-trivial: the "
     "operand boundaries cross, or one operand lies inside the other's box."
 )
-MANDATORY = ["op:|", "op:&", "op:-", "op:^", "op:+", "op:*", "unary", "program", "curved", "crossing", "polygon-exact",
+MANDATORY = ["operands-with-history", "op:|", "op:&", "op:-", "op:^", "op:+", "op:*", "unary", "program", "curved", "crossing", "polygon-exact",
              "kind:connected", "kind:disjoint", "kind:simple", "kind:empty", "kind:whole"]
 CONSTANTS = {"margin": probes.MARGIN, "margin_curved": oc.MARGIN_CURVED, "min_sin": oc.MIN_SIN, "min_kappa": oc.MIN_KAPPA}
 
@@ -147,11 +147,13 @@ def judge_pair(ctx, case):
     if exact:
         strata.append("polygon-exact")
     nontriv = ncross > 0 or case.get("config") == "nested"
+    if case.get("pre_a") and exact:
+        strata.append("operands-with-history")
     ctx.evaluated(case, nontriv, strata)
     where = ("curved" if curved else "polygon") + ":" + op
     try:
         with call_limit(120):
-            A, B = lib.build(sa), lib.build(sb)
+            A, B = oc.build_operand(sa, case.get("pre_a")), oc.build_operand(sb, case.get("pre_b"))
             R = oc.apply_op(op, A, B)
             view = oc.ResultView(R)
     except BaseException as exc:
